@@ -35,7 +35,7 @@ def zone(apex, recs, auth=True, minimum=300):
 # ---------------------------------------------------------------------------
 # universes
 
-def build_universe(r, depth=2, nservers=2, families="mixed", glue="mixed", two_glue_p=0.3, share_root=False):
+def build_universe(r, depth=2, nservers=2, families="mixed", glue="mixed", two_glue_p=0.3, share_root=False, mapped_p=0.0):
     """a consistent delegation tree from the root. returns dict(universe, hints, hostaddrs, questions, names)"""
     apexes = [[]]
     tlds = [["com"], ["org"]][: r.choice([1, 2])]
@@ -69,7 +69,11 @@ def build_universe(r, depth=2, nservers=2, families="mixed", glue="mixed", two_g
             if r.random() < two_glue_p:
                 out.append((4, "10.%d.%d.%d" % (len(host), 100 + counter[0] // 200, counter[0] % 200 + 1)))
         if fam in ("v6", "dual"):
-            out.append((6, "fd00::%x:%x" % (len(host) + 1, counter[0])))
+            if r.random() < mapped_p:
+                # an IPv6 address of the IPv4-mapped form: still an IPv6 address (AAAA record, IPv6 socket)
+                out.append((6, "::ffff:10.%d.%d.%d" % (200 + len(host), counter[0] // 200, counter[0] % 200 + 1)))
+            else:
+                out.append((6, "fd00::%x:%x" % (len(host) + 1, counter[0])))
         return out
 
     order = sorted(apexes, key=len)
@@ -227,9 +231,9 @@ def table_entries(tab):
 # scenarios and traces
 
 def scenario(zones, cache, mode, questions, table=None, default=None, protocol="only-v4", port=53,
-             forwarder="10.9.9.9:53", universe=None, expect_truth=False, hostaddrs=None, tag=""):
+             forwarder="10.9.9.9:53", universe=None, expect_truth=False, hostaddrs=None, tag="", cache_size=512):
     fip, fport = forwarder.rsplit(":", 1)
-    return {"zones": zones, "cache": cache, "mode": mode, "protocol": protocol, "port": port, "forwarder": forwarder,
+    return {"cache_size": cache_size, "zones": zones, "cache": cache, "mode": mode, "protocol": protocol, "port": port, "forwarder": forwarder,
             "forwarder_ip": fip.strip("[]"), "forwarder_port": int(fport), "table": table or [],
             "default": default if default is not None else {"rcode": 5}, "questions": questions,
             "has_universe": universe is not None, "universe": universe or {"zones": [], "servers": []},
@@ -280,7 +284,7 @@ def run_scenarios(v, pid, wd, name, scenarios, chunk=150):
     inp = os.path.join(wd, name + ".in.ndjson")
     out = os.path.join(wd, name + ".out.ndjson")
     # a resolution that never returns (or kills the process) is data: the scenario is reported, the rest still runs
-    obs, crashes = wc.run_harness_lines("resolve", inp, out, scenarios, timeout=max(60, len(scenarios) // 8), max_crashes=3)
+    obs, crashes = wc.run_harness_lines("resolve", inp, out, scenarios, timeout=max(60, len(scenarios) // 8), max_crashes=6)
     for idx, reason in crashes:
         sc = scenarios[idx]
         if pid == "C08" or "exit status" in reason:
